@@ -19,23 +19,34 @@ if [ -n "$demo" ]; then
 fi
 echo "demo: $demo -> package dir $pkg"
 cd $wt
+if [ "${SKIP_DEMO:-0}" = 1 ]; then demo=""; fi
 if [ -n "$demo" ] && [ -d "$pkg" ]; then
   cp $demo $pkg/zz_seed_demo_test.go
-  if go test -vet=off -count=1 ./$pkg/ >/var/tmp/seed.out 2>&1; then echo "demo WITHOUT patch: pass (ok)"; else echo "demo WITHOUT patch: FAIL (bad)"; tail -5 /var/tmp/seed.out; fi
+  if go test -vet=off -count=1 ./$pkg/ >/var/tmp/seed.$$.out 2>&1; then echo "demo WITHOUT patch: pass (ok)"; else echo "demo WITHOUT patch: FAIL (bad)"; tail -5 /var/tmp/seed.$$.out; fi
   rm $pkg/zz_seed_demo_test.go
 fi
 git apply $src/patch.diff || { echo "patch does not apply"; exit 2; }
-if go test -vet=off -count=1 $PK >/var/tmp/seed.out 2>&1; then echo "suite WITH patch: pass (ok)"; else echo "suite WITH patch: FAIL (bad)"; grep -v "^ok" /var/tmp/seed.out | tail -8; fi
+if [ "${SKIP_DEMO:-0}" = 1 ]; then :; elif go test -vet=off -count=1 $PK >/var/tmp/seed.$$.out 2>&1; then echo "suite WITH patch: pass (ok)"; else echo "suite WITH patch: FAIL (bad)"; grep -v "^ok" /var/tmp/seed.$$.out | tail -8; fi
 if [ -n "$demo" ] && [ -d "$pkg" ]; then
   cp $demo $pkg/zz_seed_demo_test.go
-  if go test -vet=off -count=1 ./$pkg/ >/var/tmp/seed.out 2>&1; then echo "demo WITH patch: pass (bad: does not demonstrate)"; else echo "demo WITH patch: fail (ok)"; fi
+  if go test -vet=off -count=1 ./$pkg/ >/var/tmp/seed.$$.out 2>&1; then echo "demo WITH patch: pass (bad: does not demonstrate)"; else echo "demo WITH patch: fail (ok)"; fi
   rm $pkg/zz_seed_demo_test.go
 fi
-cd /repo
-if ! git diff --quiet; then echo "/repo dirty"; exit 2; fi
-git apply $src/patch.diff || exit 2
+# checks run against the patched scratch worktree (VERIF_REPO) unless IN_REPO=1 asks for the literal
+# "apply to /repo, run, undo" procedure (only when no other check is running from /repo)
+if [ "${IN_REPO:-0}" = 1 ]; then
+  cd /repo
+  if ! git diff --quiet; then echo "/repo dirty"; exit 2; fi
+  git apply $src/patch.diff || exit 2
+  target=/repo
+else
+  target=$wt
+fi
 for c in $checks; do
-  out=$(cd /verif && VERIF_EVIDENCE_DIR=/var/tmp/verif-evidence-scratch ./check $c --tier ${TIER:-quick} 2>&1); rc=$?
+  out=$(cd ${VERIF_DIR:-/verif} && VERIF_REPO=$target VERIF_EVIDENCE_DIR=/var/tmp/verif-evidence-scratch ./check $c --tier ${TIER:-quick} 2>&1); rc=$?
+  [ "${VERBOSE:-0}" = 1 ] && echo "$out" | grep -v "KNOWN-FINDING\|rapid\] draw\|WARNING" | tail -${VERBOSE_LINES:-25} | cut -c1-600
   echo "check $c rc=$rc | $(echo "$out" | grep -v "KNOWN-FINDING\|rapid\] draw" | grep "violated\|^OK\|INCONCLUSIVE\|DATA RACE" | head -1 | cut -c1-260)"
 done
-git -C /repo checkout -- . ; git -C /repo status --short | head -3
+if [ "${IN_REPO:-0}" = 1 ]; then git -C /repo checkout -- . ; fi
+git -C /repo status --short | head -3
+rm -f /var/tmp/seed.$$.out
